@@ -24,3 +24,7 @@ rm -f *.srl other.key
 # (generated afterwards: mk_ca decoy "dverif decoy CA"; rm decoy.key; cat decoy.crt ca.crt > bundle.crt)
 # dnsonly = a server identity issued by ca whose only name is DNS:localhost (no IP entry): a client that was told "localhost"
 # must keep verifying against that name on every connect().  (generated afterwards: mk_srv dnsonly ca "DNS:localhost")
+# edca = an Ed25519 CA (trusted: bundle.crt = decoy.crt + edca.crt + ca.crt); edmatch = Ed25519 leaf issued by it, mixmatch = RSA leaf
+# issued by it (a signature algorithm without a separate digest), ecmatch = ECDSA P-256 leaf issued by ca; all name localhost and
+# 127.0.0.1.  edself = a self-signed Ed25519 certificate nobody trusts.  (generated afterwards with `openssl genpkey -algorithm
+# ED25519 | RSA | EC -pkeyopt ec_paramgen_curve:P-256`, `openssl req -new`, `openssl x509 -req -CA edca.crt | ca.crt`; edca.key removed)
